@@ -73,12 +73,21 @@ def func_fact(fn, owner=None):
     except (OSError, TypeError):
         return None
     outer_src = None
-    if wrapped_by:
+    builtin_wrapper = bool(wrapped_by) and not hasattr(fn, "__code__")      # e.g. functools.lru_cache: a C wrapper without source
+    if wrapped_by and not builtin_wrapper:
         # the wrapper that actually runs (e.g. requires_gis.wrapper)
         try:
             outer_src = inspect.getsource(fn.__code__)
         except (OSError, TypeError):
             outer_src = None
+    if builtin_wrapper:
+        wrapper = {"qualname": type(fn).__module__ + "." + type(fn).__qualname__, "module": getattr(fn, "__module__", None),
+                   "source": None, "closure": {}, "builtin": True}
+    elif wrapped_by:
+        wrapper = {"qualname": fn.__code__.co_qualname if hasattr(fn.__code__, "co_qualname") else fn.__code__.co_name,
+                   "module": fn.__module__, "source": outer_src, "closure": closure_desc(fn)}
+    else:
+        wrapper = None
     return {
         "qualname": qual(f),
         "name": f.__name__,
@@ -87,9 +96,7 @@ def func_fact(fn, owner=None):
         "line": lineno,
         "sha256": hashlib.sha256(src.encode()).hexdigest(),
         "source": src,
-        "wrapper": ({"qualname": fn.__code__.co_qualname if hasattr(fn.__code__, "co_qualname") else fn.__code__.co_name,
-                     "module": fn.__module__, "source": outer_src,
-                     "closure": closure_desc(fn)} if wrapped_by else None),
+        "wrapper": wrapper,
     }
 
 
